@@ -30,7 +30,7 @@ Extraction "model.ml"
   Search.movelist Search.mvvlva
   SearchBoard.search_board SearchBoard.minimax_board SearchBoard.material SearchBoard.full_exploration SearchBoard.captures_only
   SearchBoard.f32_of_int
-  TT.new_table TT.tt_read TT.tt_write_ok TT.tt_used TT.occupied TT.val TT.cstep TT.crun TT.c_init TT.c_occupied TT.c_quiescent
+  TT.new_table TT.key Bits.nthN TT.tt_read TT.tt_write_ok TT.tt_used TT.tt_occupied TT.val TT.cstep TT.crun TT.c_init TT.c_occupied TT.c_quiescent
   Minimax.spec_mm Minimax.spec_qv Minimax.spec_material_int
   Fen.decode Fen.encode Fen.parse_move Fen.parse_square_str Fen.parse_piece Fen.atoi Fen.itoa Fen.fen_initial
   Engine.eng_reset Engine.eng_move Engine.eng_takeback Engine.eng_position Engine.cmd_position Engine.cmd_ucinewgame
